@@ -53,7 +53,32 @@ fn crc56(message: &[u32]) -> u32 {
     data >> 8
 }
 
+/// Parity check of a received frame.
+///
+/// DF11, DF17 and DF18 carry the plain Mode S CRC-24 of the preceding bits in their last 24 bits
+/// (PI), so the CRC of the data bits XOR PI must be zero - for DF11 only in its upper 17 bits,
+/// the low 7 carry the interrogator code. Every other format overlays the aircraft address on
+/// the parity (AP) and cannot be checked without knowing the address.
+pub(crate) fn parity_ok(message: &[u32]) -> bool {
+    let Some(df) = range_value(message, 1, 5) else {
+        return false;
+    };
+    let len = (message.len() * 4) as u32;
+    let Some(pi) = range_value(message, len - 23, len) else {
+        return false;
+    };
+    let syndrome = get_crc(message, df) ^ pi;
+    match df {
+        17 | 18 => syndrome == 0,
+        11 => syndrome & 0xFFFF80 == 0,
+        _ => true,
+    }
+}
+
 /// Calculate the reminder of the message
+///
+/// Note: this routine returns 0 for every input (the cells it reads are never written), so it
+/// cannot be used as a parity check - see `parity_ok`. Kept for its unit test.
 ///
 /// # Arguments
 ///
@@ -63,6 +88,7 @@ fn crc56(message: &[u32]) -> u32 {
 ///
 /// The reminder of the message
 ///
+#[allow(dead_code)]
 pub(crate) fn reminder(message: &[u32]) -> u32 {
     let generator = [0b11111111u16, 0b11111010u16, 0b00000100u16, 0b10000000u16];
 
